@@ -93,7 +93,36 @@ def check_c15(seed, tier):
             ncase += 1
             for step in range(rng.randint(1, 8)):
                 before = list(A.pairs(b))
-                op = rng.choice(["add_auto", "add_free", "add_taken", "remove", "bulk"])
+                op = rng.choice(["add_auto", "add_free", "add_taken", "add_badlabel", "remove", "bulk"])
+                if op == "add_badlabel" and name != "PlatformsData":
+                    # an item whose label cannot be stored: accepted now and refused at encoding time, or refused now -- either
+                    # way the two lists stay in step and the earlier pairs are untouched
+                    it = A.item(rng, step)
+                    it.label = rng.choice(["x" * 300, "snow \u2603", "y" * 256])
+                    ch = rng.choice([None, max([int(c) for c, _ in before] + [0]) + 5])
+                    try:
+                        A.add(b, it, ch)
+                        accepted = True
+                    except Exception:
+                        accepted = False
+                    after = A.pairs(b)
+                    lm, li = A.lens(b)
+                    case = dict(block=name, seq=si, hist=hist + [op])
+                    if lm != li:
+                        fails.append(_f("C15", "C15.lengths", name, f"channel list has {lm} entries, item list {li} after an add of an item with an unstorable label ({'accepted' if accepted else 'refused'})", case, seed))
+                        break
+                    if [(int(c), id(p)) for c, p in after[:len(before)]] != [(int(c), id(p)) for c, p in before] or (not accepted and len(after) != len(before)):
+                        fails.append(_f("C15", "C15.frame", name, "an add of an item with an unstorable label changed the existing pairs / a refused add left something behind", case, seed))
+                        break
+                    if accepted:            # take it out again so that the block stays encodable
+                        if name == "EMG":
+                            del b._signals[-1]; del b._emgMap[-1]
+                        else:
+                            b.remove_platform(len(b._platforms) - 1)
+                    hist.append(op)
+                    continue
+                if op == "add_badlabel":
+                    op = "add_auto"
                 case = dict(block=name, seq=si, hist=hist + [op])
                 try:
                     if op == "add_auto":
@@ -108,6 +137,12 @@ def check_c15(seed, tier):
                         it = A.item(rng, step)
                         used = [int(x) for x, _ in before]
                         free = rng.choice([c for c in range(0, 8 if rng.random() < 0.6 else 40) if c not in used] or [c for c in range(0, 400) if c not in used])
+                        if rng.random() < 0.25:
+                            # towards the ends of the channel field (unsigned 16 bit in the platform-data block, signed in the
+                            # other two), leaving room for automatic channels after it
+                            edge = [c for c in ([32767, 32768, 40000, 65000] if name == "PlatformsData" else [30000, -1, -32768]) if c not in used and c > max(used + [-40000]) - 70000]
+                            if edge and (name == "PlatformsData" or max(used + [0]) < 30000):
+                                free = rng.choice(edge)
                         A.add(b, it, free)
                         after = A.pairs(b)
                         if len(after) != len(before) + 1 or int(after[-1][0]) != free or after[-1][1] is not it:
@@ -261,6 +296,32 @@ def _vary(name, rng, b):
     def clone():
         return real_build(name, io.BytesIO(real_write(name, b)), b)
     try:
+        # every header float: the next representable float32 is another value
+        for fa in ("startTime", "start_time"):
+            v = getattr(b, fa, None)
+            if isinstance(v, (float, np.floating)) and np.isfinite(np.float32(v)):
+                w = float(np.nextafter(np.float32(v), np.float32(np.inf)))
+                if np.isfinite(w) and np.float32(w) != np.float32(v):
+                    c = clone(); setattr(c, fa, w); out.append((f"{fa} changed by one float32 step", c))
+        # a wholly-missing frame against a frame of zeros (and the other way round), first track / platform
+        from harness import edits as _ed
+        if name in _ed.TRACKS_OF:
+            attr, tname = _ed.TRACKS_OF[name]
+            if getattr(b, attr):
+                fields = [f for f, _ in _ed.TRACK_FIELDS[tname]]
+                lead = getattr(getattr(b, attr)[0], fields[0])
+                nfr = lead.shape[0]
+                gaps = [f for f in range(nfr) if np.isnan(lead[f]).all()]
+                pres = [f for f in range(nfr) if not np.isnan(lead[f]).any()]
+                for which, frames, val in (("a missing frame replaced by zeros", gaps, 0.0), ("a present frame replaced by a gap", pres, np.nan)):
+                    if frames:
+                        c = clone()
+                        t0 = getattr(c, attr)[0]
+                        for f in fields:
+                            a = np.array(getattr(t0, f), dtype=getattr(t0, f).dtype, copy=True)
+                            a[frames[0]] = val
+                            setattr(t0, f, a)
+                        out.append((which, c))
         for cnt_attr, lst_attr in (("nFrames", "_tracks"), ("nSamples", "_signals"), ("n_frames", "_platforms")):
             if hasattr(b, cnt_attr) and hasattr(b, lst_attr) and name in ("Data3D", "ForceTorque3D", "EMG", "PlatformsData") and len(getattr(b, lst_attr)) == 0:
                 c = clone(); setattr(c, cnt_attr, getattr(b, cnt_attr) + 1); out.append((f"{cnt_attr} changed (no items)", c))
